@@ -869,14 +869,24 @@ def gen_simbev_case(rnd, k):
         bad = rnd.choice(["neg_soc", "charge_no_station", "consume_charging", "order", "unknown_type", "empty"])
     regions = {}
     used = {}
-    for reg in ["region_1", "region_2"][:rnd.choice([1, 2, 2])]:
+    # up to four region directories; in a fifth of the cases one file name recurs in EVERY region (a name that is not unique
+    # is renamed <name>_2, <name>_3, …: the third and fourth occurrence need the count of names already given away)
+    n_reg = rnd.choice([1, 2, 2, 3, 4])
+    recurring = None
+    if n_reg >= 3 and rnd.random() < 0.6:
+        ty0 = rnd.choice(list(tech))
+        recurring = (ty0, "%s_%05d_%dkWh" % (ty0, 0, tech[ty0]["battery_capacity"]))
+    for reg in ["region_1", "region_2", "region_3", "region_4"][:n_reg]:
         files = {}
-        for _ in range(rnd.randint(0 if reg == "region_2" else 1, 3)):
+        for fi in range(rnd.randint(0 if reg == "region_2" else 1, 3)):
             ty = rnd.choice(list(tech))
             cap = tech[ty]["battery_capacity"]
             fcap = cap if rnd.random() < 0.8 else cap + 10
             num = rnd.choice([0, 0, 1, 2])
             stem = "%s_%05d_%dkWh" % (ty, num, fcap)
+            if recurring and fi == 0:
+                ty, stem = recurring
+                cap = tech[ty]["battery_capacity"]
             if stem in files:
                 continue
             used[ty] = used.get(ty, 0) + 1
